@@ -106,7 +106,10 @@ def build_pool(ctx, n_real, n_synth):
     # the SAME descriptor list under different master table versions, over elements whose Table B
     # entry differs between the versions (a compiled template must not be shared across table groups)
     for name, ids in [('xver-14001', [1001, 14001, 12001]), ('xver-1103', [1103, 12001]), ('xver-15009', [15009, 2007, 1001]),
-                      ('xver-22039', [22039, 12001])]:
+                      ('xver-22039', [22039, 12001]),
+                      # ... and a marker operator over such an element (pseudo descriptors derived from it)
+                      ('xver-m14001', [14001, 224000, 236000, 101001, 31031, 8023, 224255]),
+                      ('xver-m22039', [22039, 223000, 236000, 101001, 31031, 223255])]:
         for v in (13, 33, 19):
             damaged.append({'id': 'r:%s-v%d' % (name, v), 'hex': O.mk_message(ids, 64, v, pattern=True).hex(), 'kind': 'register'})
     # the SAME descriptor list under the SAME master tables but different LOCAL tables (centre 98, local table
